@@ -4,6 +4,8 @@ import (
 	"fmt"
 	"go/token"
 	"go/types"
+	"math/big"
+	"os"
 	"sort"
 	"strings"
 
@@ -231,6 +233,21 @@ type tlAssert struct {
 
 func runThriftLayout(c *core.Ctx) []core.Obligation {
 	b := newOb(c, "R-THRIFTLAYOUT", "C13", "C04")
+	if d := os.Getenv("VCHECK_TLDUMP"); d != "" {
+		for _, k := range strings.Split(d, ",") {
+			if f := collectTL(c, k); f != nil {
+				for e := range f.emits {
+					fmt.Fprintf(os.Stderr, "TL %s emit %s\n", k, e)
+				}
+				for e := range f.conds {
+					fmt.Fprintf(os.Stderr, "TL %s cond %s\n", k, e)
+				}
+				for e := range f.sets {
+					fmt.Fprintf(os.Stderr, "TL %s set %s\n", k, e)
+				}
+			}
+		}
+	}
 	bw, br, cw, cr := "thrift.(*binaryWriter).", "thrift.(*binaryReader).", "thrift.(*compactWriter).", "thrift.(*compactReader)."
 	asserts := []tlAssert{
 		// ---------------- binary protocol: primitives
@@ -270,6 +287,10 @@ func runThriftLayout(c *core.Ctx) []core.Obligation {
 		{cr + "ReadInt32", "reach", []string{"encoding/binary.ReadVarint"}, "compact:i32:zigzag:reader", "compact protocol: i32 is a zig-zag varint"},
 		{cr + "ReadInt64", "reach", []string{"encoding/binary.ReadVarint"}, "compact:i64:zigzag:reader", "compact protocol: i64 is a zig-zag varint"},
 		{cw + "WriteLength", "reach", []string{"encoding/binary.PutUvarint"}, "compact:length:uvarint:writer", "compact protocol: lengths are unsigned varints"},
+		{cw + "writeVarint", "only", []string{"write(&compactWriter.varint[:binary.PutVarint(&compactWriter.varint[:],param:int64)])"}, "compact:varint:single-encoder:writer", "every zig-zag varint is produced by encoding/binary.PutVarint (no second, hand-written encoding path)"},
+		{cw + "writeUvarint", "only", []string{"write(&compactWriter.varint[:binary.PutUvarint(&compactWriter.varint[:],param:uint64)])"}, "compact:uvarint:single-encoder:writer", "every unsigned varint is produced by encoding/binary.PutUvarint (no second, hand-written encoding path)"},
+		{cr + "readVarint", "only", []string{}, "compact:varint:single-decoder:reader", "every zig-zag varint is consumed by encoding/binary.ReadVarint (no second, hand-written decoding path)"},
+		{cr + "readUvarint", "only", []string{}, "compact:uvarint:single-decoder:reader", "every unsigned varint is consumed by encoding/binary.ReadUvarint (no second, hand-written decoding path)"},
 		{cr + "ReadLength", "reach", []string{"encoding/binary.ReadUvarint"}, "compact:length:uvarint:reader", "compact protocol: lengths are unsigned varints"},
 		{cw + "WriteFloat64", "reach", []string{"(encoding/binary.littleEndian).PutUint64"}, "compact:double:little-endian:writer", "compact protocol: double is 8 bytes LITTLE-endian"},
 		{cr + "ReadFloat64", "reach", []string{"(encoding/binary.littleEndian).Uint64"}, "compact:double:little-endian:reader", "compact protocol: double is 8 bytes LITTLE-endian"},
@@ -356,6 +377,31 @@ func runThriftLayout(c *core.Ctx) []core.Obligation {
 				}
 			}
 			have = sortedKeys(f.sets)
+		case "only":
+			// every byte the function moves goes through the listed call: any other
+			// write*/read* primitive is an alternative encoding path
+			found = true
+			for e, in := range f.emits {
+				if !(strings.HasPrefix(e, "write(") || strings.HasPrefix(e, "writeByte(") || strings.HasPrefix(e, "read(") || strings.HasPrefix(e, "readByte(") || strings.HasPrefix(e, "ReadByte(") || strings.HasPrefix(e, "invoke.")) {
+					continue
+				}
+				listed := false
+				for _, w := range a.want {
+					if e == w {
+						listed = true
+					}
+				}
+				if !listed && tlSingleByteFastPath(f.fn, in, e) {
+					listed = true // a one-byte fast path whose guard implies the one-byte form
+				}
+				if !listed {
+					found, pos = false, c.InstrPos(in)
+					have = append(have, e)
+				}
+			}
+			if found {
+				pos = c.FuncPos(f.fn)
+			}
 		case "reach":
 			for _, w := range a.want {
 				if tlReaches(c, f.fn, w, map[*ssa.Function]bool{}) {
@@ -436,4 +482,22 @@ func runThriftLayout(c *core.Ctx) []core.Obligation {
 		b.ok("messagetypes", c.PosOf(tp.Types.Scope().Lookup("Call").Pos()), "MessageType constants equal the specification's values")
 	}
 	return b.out
+}
+
+// tlSingleByteFastPath: an extra writeByte in a varint writer is equivalent to the library
+// encoder when its operand is the zig-zag (or plain, for unsigned) value and the dominating
+// guards bound the parameter to the range whose encoding is one byte.
+func tlSingleByteFastPath(fn *ssa.Function, in ssa.Instruction, expr string) bool {
+	if len(fn.Params) < 2 {
+		return false
+	}
+	p := fn.Params[len(fn.Params)-1]
+	lo, hi := rangeFacts(p, in.Block())
+	switch expr {
+	case "writeByte(((param:int64<<1)^(param:int64>>63)))":
+		return lo != nil && hi != nil && lo.Cmp(big.NewInt(-64)) >= 0 && hi.Cmp(big.NewInt(63)) <= 0
+	case "writeByte(param:uint64)":
+		return hi != nil && hi.Cmp(big.NewInt(127)) <= 0
+	}
+	return false
 }
